@@ -103,3 +103,49 @@ func TestVerifC13(t *testing.T) {
 		t.Fatalf("%d failures", fails)
 	}
 }
+
+
+// TestVerifC13FuncAndModule: a function printer next to a module printer on a never-printed module (the function
+// printer reads the function's global ID without the module lock while the module printer assigns it).
+func TestVerifC13FuncAndModule(t *testing.T) { verifC13Entry(t, "func+module") }
+
+// TestVerifC13BlockAndFunc: a block printer next to a function printer on a never-printed function (the block
+// printer never takes the function lock under which the local IDs are assigned).
+func TestVerifC13BlockAndFunc(t *testing.T) { verifC13Entry(t, "block+func") }
+
+func verifC13Entry(t *testing.T, mode string) {
+	bound, _ := strconv.Atoi(os.Getenv("VERIF_BOUND"))
+	if bound <= 0 {
+		bound = 40
+	}
+	cases := 0
+	for round := 0; round < bound; round++ {
+		cases++
+		m := verifC13Module(16)
+		f := m.Funcs[0] // unnamed function with unnamed blocks
+		var wg sync.WaitGroup
+		start := make(chan struct{})
+		for i := 0; i < 4; i++ {
+			wg.Add(1)
+			go func(i int) {
+				defer wg.Done()
+				defer func() { recover() }()
+				<-start
+				switch {
+				case mode == "func+module" && i%2 == 0:
+					_ = m.String()
+				case mode == "func+module":
+					_ = f.LLString()
+				case i%2 == 0:
+					_ = f.LLString()
+				default:
+					_ = f.Blocks[1].LLString()
+				}
+			}(i)
+		}
+		close(start)
+		wg.Wait()
+	}
+	fmt.Printf("REPLAY-SAMPLE 4 goroutines, mode %s, never-printed module\n", mode)
+	fmt.Printf("REPLAY-CASES %d\n", cases)
+}
